@@ -505,6 +505,28 @@ Proof.
   rewrite Nat2N.id, Hn. now apply pending_region_spec.
 Qed.
 
+(* a bulk request over stored blocks is the map of the single-region reads *)
+Lemma bulk_regions h d (reqs : list (nat * N * N)) :
+  hist_ok h -> run (db0 cksum) h = Ok d ->
+  Forall (fun q => snd (fst q) < 4294967296 /\ snd q < 4294967296 /\
+                   (fst (fst q) < length (blocks_of h))%nat) reqs ->
+  tx_regions d [] (map (fun q => (N.of_nat (fst (fst q)), snd (fst q), snd q)) reqs) =
+  bulk (map (fun q => match nth_error (blocks_of h) (fst (fst q)) with
+                      | Some raw => region_spec raw (snd (fst q)) (snd q)
+                      | None => Err ENotFound
+                      end) reqs).
+Proof.
+  intros Hh Hrun Hall. unfold tx_regions. rewrite map_map. f_equal.
+  apply map_ext_in. intros [[i off] n] Hin. cbn [fst snd].
+  rewrite Forall_forall in Hall. destruct (Hall _ Hin) as (Ho & Hn & Hi). cbn [fst snd] in *.
+  destruct (nth_error (blocks_of h) i) as [raw|] eqn:E; [|apply nth_error_None in E; lia].
+  destruct (run_total h Hh) as (d' & Hr & Hinv). rewrite Hrun in Hr. injection Hr as <-.
+  pose proof Hinv as (_ & _ & _ & Hrows). apply Forall2_len in Hrows.
+  unfold tx_region. rewrite Hrows.
+  replace (N.of_nat i <? N.of_nat (length (blocks_of h))) with true by (symmetry; apply N.ltb_lt; lia).
+  now apply (region_stored h d i raw off n).
+Qed.
+
 (* rollover never splits a record: it lies entirely inside one file, below
    the maximum file size, at the recorded location *)
 Lemma never_split h d i raw :
